@@ -12,7 +12,7 @@ CONSTANTS MaxFiles
 
 VARIABLES sc, P          \* sc = [S, k] identifies the scenario (k = 0: not chosen yet), P = its plan
 vars == <<sc, P>>
-NoPlan == [tasks |-> <<>>, unspec |-> {"none"}, hazard |-> {}, known |-> {}, inplace |-> {}, dstReal |-> <<>>]
+NoPlan == [tasks |-> <<>>, unspec |-> {"none"}, hazard |-> {}, known |-> {}, inplace |-> {}, refuse |-> {}, dstReal |-> <<>>]
 \* one initial state per shape, one successor per tree: TLC's workers expand the shapes in parallel
 Init == \E k \in 1..Len(Shapes) : sc = [S |-> {}, k |-> k, chosen |-> FALSE] /\ P = NoPlan
 Next == /\ ~sc.chosen
